@@ -23,6 +23,9 @@ spec fn started(c *BytecodeCompiler) bool = len(c.bytecode.LineInfoList) >= 1
 func (*BytecodeCompiler).addFailure
   trusted
   assigns all(diagnostic.SyncDiagnosticList).DiagnosticList
+  // the function being built is discarded once a failure is recorded: its stack accounting
+  // (verif_contracts_depth.go) stops mattering
+  ensures ghostdef failed: ghost(dead, c) == 1
 
 func (*BytecodeCompiler).emit
   props C29 C32
@@ -34,6 +37,13 @@ func (*BytecodeCompiler).emit
   ensures operands: forall k int :: 0 <= k && k < len(bytes) ==> ci(c, old(clen(c)) + 1 + k) == old(elem(bytes, k))
   ensures prefix: forall k int :: 0 <= k && k < old(clen(c)) ==> ci(c, k) == old(ci(c, k))
   ensures last: c.lastOpCode == op && c.secondToLastOpCode == old(c.lastOpCode)
+  // operand-stack accounting (verif_contracts_depth.go): the net stack effect of the opcodes the
+  // node dispatch emits itself, as the VM's run loop implements them (push for NIL, UNDEFINED,
+  // TRUE, FALSE, SELF; popGet for POP and the popping conditional jumps; peek for the others)
+  ensures ghostdef push1: (op == bytecode.NIL || op == bytecode.UNDEFINED || op == bytecode.TRUE || op == bytecode.FALSE || op == bytecode.SELF) ==> ghost(depth, c) == old(ghost(depth, c)) + 1
+  ensures ghostdef pop1: (op == bytecode.POP || op == bytecode.JUMP_UNLESS || op == bytecode.JUMP_IF || op == bytecode.JUMP_UNLESS_NIL) ==> ghost(depth, c) == old(ghost(depth, c)) - 1
+  ensures ghostdef peek: (op == bytecode.JUMP_UNLESS_NP || op == bytecode.JUMP_IF_NP || op == bytecode.JUMP_UNLESS_NNP) ==> ghost(depth, c) == old(ghost(depth, c))
+  ensures ghostdef live: ghost(dead, c) == old(ghost(dead, c))
 
 func (*BytecodeCompiler).emitByte
   props C29 C32
@@ -72,6 +82,9 @@ func (*BytecodeCompiler).emitJump
   ensures op: ci(c, ret - 1) == op && ci(c, ret) == 255 && ci(c, ret + 1) == 255
   ensures prefix: forall k int :: 0 <= k && k < old(clen(c)) ==> ci(c, k) == old(ci(c, k))
   ensures last: c.lastOpCode == op
+  ensures jpop: (op == bytecode.JUMP_UNLESS || op == bytecode.JUMP_IF || op == bytecode.JUMP_UNLESS_NIL) ==> ghost(depth, c) == old(ghost(depth, c)) - 1
+  ensures jpeek: (op == bytecode.JUMP_UNLESS_NP || op == bytecode.JUMP_IF_NP || op == bytecode.JUMP_UNLESS_NNP) ==> ghost(depth, c) == old(ghost(depth, c))
+  ensures live: ghost(dead, c) == old(ghost(dead, c))
 
 // patching writes the operand exactly when it fits in 16 bits; nothing else changes.  When it
 // does not fit nothing is written (the failure is recorded in c.Errors, outside this contract)
@@ -82,6 +95,7 @@ func (*BytecodeCompiler).patchJumpWithTarget
   ensures len: clen(c) == old(clen(c))
   ensures fits: target <= 65535 ==> be16(c, offset) == target
   ensures others: forall k int :: 0 <= k && k < clen(c) && (target > 65535 || (k != offset && k != offset + 1)) ==> ci(c, k) == old(ci(c, k))
+  ensures sticky: old(ghost(dead, c)) == 1 ==> ghost(dead, c) == 1
 
 // a patched forward jump lands on the offset that was the next instruction when it was
 // patched: the VM reads the operand at `offset`, advances past it (offset + 2) and adds it
@@ -92,6 +106,7 @@ func (*BytecodeCompiler).patchJump
   ensures len: clen(c) == old(clen(c))
   ensures lands: clen(c) - offset - 2 <= 65535 ==> offset + 2 + be16(c, offset) == clen(c)
   ensures others: forall k int :: 0 <= k && k < clen(c) && (clen(c) - offset - 2 > 65535 || (k != offset && k != offset + 1)) ==> ci(c, k) == old(ci(c, k))
+  ensures sticky: old(ghost(dead, c)) == 1 ==> ghost(dead, c) == 1
 
 // ---- backward jumps --------------------------------------------------------------------
 // emitLoop appends `LOOP hi lo`; the VM reads the operand, stands at the end of the
